@@ -35,14 +35,20 @@ def units(db, ctx):
                         "sentinels after the loop and calls fill_orig_b2c before returning Ok")
 def b2c_source(db, ctx):
     f = db.one("fill_orig_b2c", "InputBuffer")
+    from ..inline import nf
+    from ..loops import chain as lchain
     src = None
+    src_ok = False
     for n, (it, pat, body), ps in _loops(f):
-        src = render(it)
-    ctx.ob("fill_orig_b2c|source", src is not None and "self.original.char_indices()" in src and "modified" not in src,
+        ch, base = lchain(db, f, it)
+        names = [m for m, _ in ch]
+        src = "%s.%s" % (nf(base), ".".join(names))
+        src_ok = nf(base) == "self.original" and "char_indices" in names and set(names) <= {"char_indices", "enumerate", "map"}
+    ctx.ob("fill_orig_b2c|source", src is not None and src_ok and "modified" not in src,
            "table is filled from `%s` (must be self.original.char_indices())" % src, fn=f)
-    rs = [render(c) for c, _ in walk(f.hir) if c.get("k") == "MethodCall" and c.get("method") == "resize"]
-    ctx.ob("fill_orig_b2c|size", any("self.original.len() + 1" in r for r in rs), "resized to %s (must be original.len()+1)" % rs, fn=f)
-    sent = any(n.get("k") == "Assign" and peel(n["l"]).get("k") == "Index" and "self.original.len()" in render(peel(n["l"])["i"]) and "+ 1" in render(n["r"])
+    rs = [nf(c["args"][0]) for c, _ in walk(f.hir) if c.get("k") == "MethodCall" and c.get("method") == "resize" and c["args"]]
+    ctx.ob("fill_orig_b2c|size", any(r == "(1 + self.original.len())" for r in rs), "resized to %s (must be original.len()+1)" % rs, fn=f)
+    sent = any(n.get("k") == "Assign" and peel(n["l"]).get("k") == "Index" and nf(peel(n["l"])["i"]) == "self.original.len()" and nf(n["r"]).startswith("(1 + ")
                for n, _ in walk(f.hir))
     ctx.ob("fill_orig_b2c|end-sentinel", sent, "m2o_2[original.len()] = last char index + 1: %s" % sent, fn=f)
     clr = any(c.get("k") == "MethodCall" and c.get("method") == "clear" and "m2o_2" in render(c["recv"]) for c, _ in walk(f.hir))
